@@ -110,6 +110,7 @@ fn generate(rng: &mut Rng) -> ConnScenario {
         wplan: vec![],
         cap_ns: secs(600),
         prelude: vec![],
+        growth: None,
     };
     zero_time_noise(rng, &mut sc);
     // the same claim twice: an earlier connection from this address with this very name and UUID was authenticated
